@@ -4,6 +4,8 @@ import (
 	"fmt"
 	"sort"
 	"strings"
+
+	"github.com/uhn/ggql/pkg/ggql"
 )
 
 // ---------------------------------------------------------------- reference executor (GraphQL June 2018, section 6)
@@ -306,6 +308,10 @@ func Canon(v interface{}) interface{} {
 	case bool:
 		return tv
 	case EnumVal:
+		return string(tv)
+	case EnumLit:
+		return string(tv)
+	case ggql.Symbol:
 		return string(tv)
 	case []interface{}:
 		out := make([]interface{}, len(tv))
